@@ -22,6 +22,7 @@ const pkgStrategies = "pkg/scheduler/plugins/proportion/reclaimable/strategies"
 func runC07(c *Ctx) {
 	runC07Kinds(c)
 	borrow(c, "O8", "C08", "O13", "usage is accumulated for the allocated statuses", "the queue shares that reclaim reasons about start from the pods that HOLD resources: counting terminating pods makes a queue at its deserved quota look over quota and lets reclaim take more from it")
+	borrow(c, "O10", "C08", "O6", "scaled by 10^6", "a deserved memory quota scaled by 2^20 instead of 10^6 is 4.86% larger than configured: a non-preemptible reclaimer is admitted above its real quota and another queue's workload is evicted for it")
 	borrow(c, "O9", "C12", "O2", "AllocatedStatus(Binding)", "a pod whose bind is in flight holds its resources: if Binding is not an allocated status the reclaimer's queue looks smaller than it is at session open and reclaims past its fair share")
 	p, fx := c.P, c.Fx
 	// ---- O1
